@@ -53,6 +53,9 @@ MCNext ==
           \/ Clean(\E h \in {NR(d), NR(d) + 1} : Set(h, 0, <<1>>, 0))
           \/ Clean(\E h \in 0..NR(d) - 1 : Set(h, (d.regs[h + 1].ty + 3) % 8, Fill(Size((d.regs[h + 1].ty + 3) % 8), 1), 0))
           \/ Clean(\E h \in 0..NR(d) - 1, isSet \in BOOLEAN : \E v \in Vals[i][h + 1] : Bit(h, d.regs[h + 1].ty, v, isSet))
+          \/ Clean(\E h \in 0..NR(d) - 1, isSet \in BOOLEAN :                                   \* operand of another type (same and different width)
+                      \E ty \in {(d.regs[h + 1].ty + 3) % 8, (d.regs[h + 1].ty + 4) % 8} : Bit(h, ty, Fill(Size(ty), 1), isSet))
+          \/ Clean(\E h \in {NR(d), NR(d) + 1}, isSet \in BOOLEAN : Bit(h, 0, <<1>>, isSet))           \* no such register
           \/ Clean(\E addr \in Window(d), n \in BlockLens : \E ws \in {s \in SeqsUpTo(IF n = 1 THEN WordsOf(i) ELSE {0, 1, 65535, Word2[i]}, n) : Len(s) = n} : BlockWrite(addr, ws))
           \/ Clean(\E h \in 0..NR(d) : Get(h))
           \/ (Reads /\ Clean(\E addr \in Window(d), n \in 0..4 : BlockRead(addr, n)))
